@@ -154,12 +154,9 @@ Fixpoint unguard (vp : string) (raw : list (string * node)) (t : string) (n : no
   let is_t x := match is_temp_ident vp x with Some s => String.eqb s t | None => false end in
   match n with
   | Node (K KMember lo hi) [obj; prop] =>
-      if is_t obj
-      then
-        match ident_name_sym prop, is_dummy (lo, hi) with
-        | _, true => mk_opt n
-        | _, false => Node (K KMember lo hi) [unguard vp raw t obj; prop]
-        end
+      (* the link whose object is the guarded temporary is the optional one (whatever position it carries: a member
+         rebuilt for an instrumented call has the call's position, which is a real one for a non-optional call link) *)
+      if is_t obj then mk_opt n
       else Node (K KMember lo hi) [unguard vp raw t obj; unguard vp raw t prop]
   | Node (K KCall lo hi) [cx; callee; Node Lst args; targs] =>
       if is_t callee then mk_opt n
